@@ -17,7 +17,7 @@ def run(ctx):
     ctx.finish("model_checking", {
         "evaluations": ng * 3,
         "distinct_nontrivial": len({(c["struct"], tuple(c["pop"]), c["ver"]) for c in d["cases"] if c["struct"] in gated and c["pop"] != c["visible"]}),
-        "rule": "Plan.tla: FieldEmitted <=> populated and (no version register or vmin <= version); TLC checks Gating on every (structure, population, version in {none,1.0..1.4}) and that the extracted annotations equal the pinned table (60 gated fields) and that the set-version field comes first; every case of the %d structures with gated members is encoded by the real encoder under a header of that version in binary, XML and JSON, the emitted element names are read by independent parsers (refwire, encoding/xml, encoding/json) and compared with EncTags; for 1.4 encodings the same bytes re-labelled 1.0 must still decode with every later-version element; every fully populated payload (26 operations x 2 directions x 5 versions) is also encoded as the second item of a batch whose first item is a Discover Versions payload listing other versions - its elements must be those of the payload encoded alone (binary, and through XML / JSON); and every message is written right after a message of each other version on the same encoder (no Clear): its bytes must be those of a fresh encoding; non-trivial = cases where gating removes something" % len(gated),
+        "rule": "Plan.tla: FieldEmitted <=> populated and (no version register or vmin <= version); TLC checks Gating on every (structure, population, version in {none,1.0..1.4}) and that the extracted annotations equal the pinned table (60 gated fields) and that the set-version field comes first; every case of the %d structures with gated members is encoded by the real encoder under a header of that version in binary, XML and JSON, the emitted element names are read by independent parsers (refwire, encoding/xml, encoding/json) and compared with EncTags; for 1.4 encodings the same bytes re-labelled 1.0 must still decode with every later-version element; every fully populated payload (26 operations x 2 directions x 5 versions) is also encoded as the second item of a batch whose first item is a Discover Versions payload listing other versions - its elements must be those of the payload encoded alone (binary, and through XML / JSON); and every message is written right after a message of each other version on the same encoder (without Clear, and on a pooled encoder recycled with Clear() between the messages, back and forth): its bytes must be those of a fresh encoding; non-trivial = cases where gating removes something" % len(gated),
         "cases_replayed_against_impl": ng, "samples": [c for c in d["cases"] if c["struct"] in gated and c["pop"] != c["visible"]][:3],
     }, assumptions=["the pinned version table is the tree's own annotation set reviewed against DESIGN.md Appendix A",
                     "gated members of structures with hand-written decoders (key block, attribute) are exercised through whole messages (C01)"])
